@@ -285,3 +285,52 @@ class UnionLabelPrecision(Contract):
             vb = {exact(v): env["b"].values[i] for i, v in enumerate(lb)}
             yield "value-where-both-define-the-label-nan-elsewhere", len(pos) == len(want) and all(
                 (result.values[pos[l]] == va[l] + vb[l]) if l in common else np.isnan(result.values[pos[l]]) for l in want if l in pos)
+
+
+class CommonDirectionNative(Contract):
+    """BOUNDED STAND-IN ONLY (never counted as proved).  "Inputs that are all sorted in the same direction give a result sorted in
+    that direction", for THREE inputs (the proved contracts state it for Axis.union of two axes and for the fold as a whole only
+    through them): align([a, b, c], join='outer') where every input is sorted in one direction -- inputs of a single label are
+    sorted in both -- gives a common axis sorted in that direction holding every label once.  Cases by which inputs have one
+    label only.  [C06]"""
+    target = "dimarray.core.align:_common_axis"
+    props = ("C06",)
+    native_only = True
+
+    def cases(self, tier):
+        for direction in ("inc", "dec"):
+            for singles in ("none", "last", "last-two", "first", "middle"):
+                yield {"name": "%s-single-label-inputs_%s" % (direction, singles), "dir": direction, "singles": singles}
+
+    def setup(self, S, case):
+        Ls = [S.array1d("l%d" % i, "f") for i in range(3)]
+        for L in Ls:
+            assume_order(S, L, "unique")
+            S.assume(S.n(L) >= 1, "non-empty")
+        return {"Ls": Ls}
+
+    def call(self, fn, env):
+        import numpy as np
+        S, case = env["S"], env["case"]
+        single = {"none": (), "last": (2,), "last-two": (1, 2), "first": (0,), "middle": (1,)}[case["singles"]]
+        labs = []
+        for i, L in enumerate(env["Ls"]):
+            v = np.sort(np.asarray(L, dtype=float))
+            if case["dir"] == "dec":
+                v = v[::-1]
+            if i in single:
+                v = v[:1] + 0.25 * (i + 1)            # one label, distinct from the others' (quarter offsets)
+            labs.append(v.copy())
+        arrays = [S.da.DimArray(np.arange(len(v), dtype=float) + 10 * i, axes=[("x", v)]) for i, v in enumerate(labs)]
+        env["labs"] = labs
+        import importlib
+        return importlib.import_module("dimarray.core.align").align(arrays, join="outer")
+
+    def post(self, S, case, env, result):
+        import numpy as np
+        want = sorted({float(t) for v in env["labs"] for t in v}, reverse=case["dir"] == "dec")
+        multi = [v for v in env["labs"] if len(v) >= 2]
+        got = [float(t) for t in result[0].axes[0].values]
+        yield "every-label-once", sorted(got) == sorted(want)
+        if multi:          # (with single-label inputs only there is no direction to keep)
+            yield "common-axis-sorted-in-the-inputs-direction", got == want
